@@ -227,6 +227,9 @@ func ExecOp(op Op, env *Env) *OpResult {
 	mkOpts := func() (*spec.ExpandOptions, *spec.ExpandOptions, uintptr) {
 		o := &spec.ExpandOptions{RelativeBase: base, SkipSchemas: op.Opts.Skip, ContinueOnError: op.Opts.Continue,
 			AbsoluteCircularRef: op.Opts.Absolute, PathLoader: loader}
+		if op.GlobalLoader {
+			o.PathLoader = nil
+		}
 		cp := *o
 		return o, &cp, reflect.ValueOf(loader).Pointer()
 	}
